@@ -660,6 +660,27 @@ func runC15(c *Ctx) {
 		add(itCase{It: "Permutations", P: []int{n}})
 		add(itCase{It: "LexicographicPermutations", P: []int{n}})
 	}
+	for n := 8; n <= 11; n++ { // larger ground sets for the cheap iterators
+		for k := 0; k <= n+2; k++ {
+			add(itCase{It: "Combinations", P: []int{n, k}})
+			add(itCase{It: "CombinationsColex", P: []int{n, k}})
+		}
+	}
+	for _, v := range [][]int{{5, 5}, {1, 1, 1, 1, 1, 1}, {7}, {2, 0, 0, 5, 1}, {4, 4, 4}, {6, 1, 6}} {
+		sum := 0
+		for _, x := range v {
+			sum += x
+		}
+		for k := 0; k <= sum+1; k++ {
+			add(itCase{It: "MultisetCombinations", P: append(append([]int{}, v...), k)})
+		}
+		if sum <= 9 {
+			add(itCase{It: "MultisetPermutations", P: v})
+		}
+		add(itCase{It: "Product", P: v})
+	}
+	add(itCase{It: "Product", P: []int{2, 2, 2, 2, 2, 2, 2}})
+	add(itCase{It: "Product", P: []int{10, 11}})
 	add(itCase{It: "Permutations", P: []int{8}})
 	add(itCase{It: "LexicographicPermutations", P: []int{8}})
 	add(itCase{It: "Partitions", P: []int{9}})
@@ -668,7 +689,7 @@ func runC15(c *Ctx) {
 		add(itCase{It: "Permutations", P: []int{9}})
 		add(itCase{It: "LexicographicPermutations", P: []int{9}})
 		add(itCase{It: "Partitions", P: []int{11}})
-		for n := 8; n <= 11; n++ {
+		for n := 12; n <= 15; n++ {
 			for k := 0; k <= n+2; k++ {
 				add(itCase{It: "Combinations", P: []int{n, k}})
 				add(itCase{It: "CombinationsColex", P: []int{n, k}})
